@@ -699,10 +699,62 @@ def item_edits(mido, out):
         out.append(('C16', 'edits', 'the edited file shows %s, a fresh one with the same contents %s' % (_s(a[:2]), _s(b[:2]))))
 
 
-ITEMS = {'value': item_value, 'edits': item_edits, 'wire': item_wire, 'ranges': item_ranges, 'chunks': item_chunks, 'smf': item_smf, 'charset': item_charset,
+def item_backend(mido, out):
+    """C20: the module is imported at first use, explicit names beat the environment, the API suffix
+    reaches the constructors, set_backend rebinds."""
+    import shutil
+    import tempfile
+    d = tempfile.mkdtemp(prefix='vfvar-')
+    saved_env = {k: os.environ.get(k) for k in ('MIDO_BACKEND', 'MIDO_DEFAULT_INPUT', 'MIDO_DEFAULT_OUTPUT', 'MIDO_DEFAULT_IOPORT')}
+    try:
+        with open(os.path.join(d, 'vfvar_backend.py'), 'w') as f:
+            f.write("calls = []\nclass _P:\n    def __init__(self, name=None, **kw):\n        self.name = name; self.closed = False; self._messages = __import__('collections').deque()\n"
+                    "        calls.append((type(self).__name__, name, kw.get('api')))\n"
+                    "class Input(_P): pass\nclass Output(_P): pass\n"
+                    "def get_devices(**kw):\n    calls.append(('get_devices', None, kw.get('api')))\n"
+                    "    return [{'name': 'a', 'is_input': True, 'is_output': True}, {'name': 'b', 'is_input': True, 'is_output': False}]\n")
+        sys.path.insert(0, d)
+        for k in saved_env:
+            os.environ.pop(k, None)
+        os.environ['MIDO_DEFAULT_INPUT'] = 'from-env'
+        b = mido.Backend('vfvar_backend/API7')
+        if 'vfvar_backend' in sys.modules or b.loaded:
+            out.append(('C20', 'backend', 'the module was imported before first use'))
+        b.open_input()
+        b.open_input('explicit')
+        b.open_ioport('io')
+        names = (b.get_input_names(), b.get_ioport_names())
+        mod = sys.modules.get('vfvar_backend')
+        calls = getattr(mod, 'calls', None)
+        exp = [('Input', 'from-env', 'API7'), ('Input', 'explicit', 'API7'), ('Input', 'io', 'API7'), ('Output', 'io', 'API7'),
+               ('get_devices', None, 'API7'), ('get_devices', None, 'API7')]
+        if calls != exp or names != (['a', 'b'], ['a']):
+            out.append(('C20', 'backend', 'calls %r, listings %r' % (calls, names)))
+        old = mido.backend
+        try:
+            mido.set_backend(b)
+            if mido.backend is not b or mido.open_input.__self__ is not b:
+                out.append(('C20', 'backend', 'set_backend did not rebind the top-level functions'))
+        finally:
+            mido.set_backend(old)
+    except Exception as e:
+        out.append(('C20', 'backend', repr(e)))
+    finally:
+        for k, v in saved_env.items():
+            if v is None:
+                os.environ.pop(k, None)
+            else:
+                os.environ[k] = v
+        if d in sys.path:
+            sys.path.remove(d)
+        sys.modules.pop('vfvar_backend', None)
+        shutil.rmtree(d, ignore_errors=True)
+
+
+ITEMS = {'backend': item_backend, 'value': item_value, 'edits': item_edits, 'wire': item_wire, 'ranges': item_ranges, 'chunks': item_chunks, 'smf': item_smf, 'charset': item_charset,
          'ports': item_ports, 'socket': item_socket, 'play': item_play, 'text': item_text}
 # which items can produce findings for which property
-BY_PID = {'C15': ['value'], 'C16': ['edits'], 'C01': ['wire'], 'C02': ['wire'], 'C03': ['ranges'], 'C04': ['chunks'], 'C05': ['chunks'], 'C06': ['chunks'],
+BY_PID = {'C20': ['backend'], 'C15': ['value'], 'C16': ['edits'], 'C01': ['wire'], 'C02': ['wire'], 'C03': ['ranges'], 'C04': ['chunks'], 'C05': ['chunks'], 'C06': ['chunks'],
           'C07': ['smf'], 'C08': ['smf'], 'C09': ['smf'], 'C10': ['ports'], 'C11': ['ports'], 'C12': ['text'],
           'C13': ['play'], 'C14': ['text'], 'C17': ['charset'], 'C18': ['socket'], 'C19': ['text']}
 
